@@ -245,4 +245,36 @@ theorem colorWL_sameRows (hx : ExactOps ops) {adj adj' : List (List Nat)} (h : S
   unfold colorWL
   simp only [coloring_sameRows hx h, h.1]
 
+theorem isoLoop_sameRows (hx : ExactOps ops) (adj1 : List (List Nat)) {adj2 adj2' : List (List Nat)}
+    (h : SameRows adj2 adj2') : ∀ k l1 l2 c1 c2, isoLoop ops adj1 adj2 k l1 l2 c1 c2 = isoLoop ops adj1 adj2' k l1 l2 c1 c2 := by
+  intro k
+  induction k with
+  | zero => intro l1 l2 c1 c2; rfl
+  | succ k ih =>
+    intro l1 l2 c1 c2
+    unfold isoLoop
+    rw [coloring_sameRows hx h 1 l2 true]
+    split
+    · simp only [ih]
+    · rfl
+
+theorem nnz_sameRows {adj adj' : List (List Nat)} (h : SameRows adj adj') : nnz adj = nnz adj' := by
+  unfold nnz
+  congr 1
+  apply List.ext_getElem (by simp [h.1])
+  intro i h1 h2
+  simp only [List.getElem_map]
+  have hi : i < adj.length := by simpa using h1
+  have := (h.2 i hi).length_eq
+  rw [List.getD_eq_getElem?_getD, List.getD_eq_getElem?_getD, List.getElem?_eq_getElem hi,
+    List.getElem?_eq_getElem (h.1 ▸ hi)] at this
+  simpa using this
+
+theorem areIsomorphic_sameRows (hx : ExactOps ops) (adj1 : List (List Nat)) {adj2 adj2' : List (List Nat)}
+    (h : SameRows adj2 adj2') (maxIter : Option Nat) :
+    areIsomorphic ops adj1 adj2 maxIter = areIsomorphic ops adj1 adj2' maxIter := by
+  unfold areIsomorphic
+  rw [nnz_sameRows h, h.1]
+  simp only [isoLoop_sameRows hx adj1 h]
+
 end SkNet.WL
